@@ -15,6 +15,7 @@ import (
 	"bytes"
 	"context"
 	"encoding/json"
+	"errors"
 	"fmt"
 	"math/rand"
 	"net"
@@ -39,6 +40,7 @@ type c42In struct {
 	Unix   bool        `json:"unix"`
 	IdleMs int         `json:"idle_ms"`
 	Gate   bool        `json:"gate"`
+	Hook   []bool      `json:"hook,omitempty"` // serve-start hook script: verdict of its j-th invocation, true = it fails; past the end it succeeds
 	Conns  [][]c02Call `json:"conns"`
 	Ops    []c42Op     `json:"ops"`
 	Class  string      `json:"class"`
@@ -118,6 +120,15 @@ type c42Mon struct {
 	zeroAt  int
 	need    int
 	stopped bool
+	hook    []bool
+	hookN   int
+	bound   bool
+}
+
+func newC42MonH(idle int, hook []bool) *c42Mon {
+	m := newC42Mon(idle)
+	m.hook = hook
+	return m
 }
 
 func newC42Mon(idle int) *c42Mon {
@@ -134,7 +145,19 @@ func (m *c42Mon) apply(o c42Op) {
 	switch o.K {
 	case "open":
 		if !m.stopped && !m.used[o.C] {
-			m.open[o.C], m.used[o.C] = true, true
+			m.used[o.C] = true
+			if !m.bound {
+				fail := m.hookN < len(m.hook) && m.hook[m.hookN]
+				m.hookN++
+				if fail { // refused: open for an instant, the server closes it unserved
+					if len(m.open) == 0 {
+						m.zeroAt, m.need = m.now, m.idle
+					}
+					return
+				}
+				m.bound = true
+			}
+			m.open[o.C] = true
 		}
 	case "close":
 		if m.open[o.C] {
@@ -154,9 +177,10 @@ func (m *c42Mon) apply(o c42Op) {
 // ---------------------------------------------------------------- one attempt against a real listener
 
 type c42Probe struct {
-	Ok   bool `json:"ok"`
-	Ret  bool `json:"ret"`
-	File int  `json:"file"` // permission bits, -1 = no such file / tcp
+	Ok      bool `json:"ok"`
+	Refused bool `json:"refused"` // open: the hook failed for this connection and the server closed it before any request
+	Ret     bool `json:"ret"`
+	File    int  `json:"file"` // permission bits, -1 = no such file / tcp
 }
 
 type c42Result struct {
@@ -172,6 +196,23 @@ var c42HostSeq atomic.Int32
 func c42Attempt(in c42In) c42Result {
 	res := c42Result{Views: make([][]RStream, len(in.Conns)), Talked: make([]bool, len(in.Conns))}
 	s := c42Server(in.Gate, in.Conns)
+	// scripted serve-start hook: notifyTransport calls it for every connection until it has succeeded once
+	var hookMu sync.Mutex
+	hookCalls := 0
+	hookSig := make(chan bool, 256)
+	s.SetServeStartHook(func(vgirpc.TransportKind, map[string]bool) error {
+		hookMu.Lock()
+		j := hookCalls
+		hookCalls++
+		hookMu.Unlock()
+		fail := j < len(in.Hook) && in.Hook[j]
+		hookSig <- fail
+		if fail {
+			return errors.New("scripted serve-start failure")
+		}
+		return nil
+	})
+	bound0 := false // the hook has succeeded (as seen through hookSig)
 	dir, err := os.MkdirTemp("", "c42")
 	if err != nil {
 		res.Notes = append(res.Notes, "tmpdir: "+err.Error())
@@ -230,7 +271,7 @@ func c42Attempt(in c42In) c42Result {
 		return int(fi.Mode().Perm())
 	}
 
-	mon := newC42Mon(in.IdleMs)
+	mon := newC42MonH(in.IdleMs, in.Hook)
 	zeroReal := start // real time BEFORE the close that emptied the listener (or the start): the timer is armed later than this
 	conns := map[int]net.Conn{}
 	const margin = 40 * time.Millisecond
@@ -280,6 +321,7 @@ func c42Attempt(in c42In) c42Result {
 				p.Ok = false // the schedule reuses a connection id: no dial
 				break
 			}
+			beforeDial := time.Now()
 			conn, err := net.DialTimeout(network, addr, 2*time.Second)
 			if err != nil {
 				p.Ok = false
@@ -287,6 +329,31 @@ func c42Attempt(in c42In) c42Result {
 				conns[o.C] = conn
 			}
 			checkEarly("dial")
+			if err == nil && !bound0 {
+				select {
+				case fail := <-hookSig:
+					if !fail {
+						bound0 = true
+						break
+					}
+					// the hook refused: the server must close the connection without serving it
+					_ = conn.SetReadDeadline(time.Now().Add(3 * time.Second))
+					n, rerr := conn.Read(make([]byte, 1))
+					var ne net.Error
+					if n == 0 && rerr != nil && !(errors.As(rerr, &ne) && ne.Timeout()) {
+						p.Refused = true
+						conn.Close()
+						delete(conns, o.C)
+						if len(conns) == 0 {
+							zeroReal = beforeDial // the refused connection was counted and uncounted: the timer is armed later than this
+						}
+					} else {
+						res.Notes = append(res.Notes, fmt.Sprintf("conn %d: hook failed but the connection was not closed", o.C))
+					}
+				case <-time.After(3 * time.Second):
+					res.Notes = append(res.Notes, fmt.Sprintf("conn %d: serve-start hook was not invoked", o.C))
+				}
+			}
 		case "talk":
 			var wgrp sync.WaitGroup
 			var mu sync.Mutex
@@ -416,7 +483,16 @@ func c42RunNow(in c42In) CaseOut {
 		tagset["idle-off"] = true
 	}
 	stopped, refused, heldOpen, talked, failing := false, false, false, 0, 0
-	mon := newC42Mon(in.IdleMs)
+	mon := newC42MonH(in.IdleMs, in.Hook)
+	nRefused := 0
+	for _, p := range res.Probes {
+		if p.Refused {
+			nRefused++
+		}
+	}
+	if len(in.Hook) > 0 {
+		tagset[fmt.Sprintf("hook-refused-%d", nRefused)] = true
+	}
 	for i, o := range in.Ops {
 		was := len(mon.open) > 0
 		mon.apply(o)
@@ -469,10 +545,10 @@ func c42RunNow(in c42In) CaseOut {
 	}
 	sort.Strings(tags)
 
-	coqIn := App("C42.Build_input", Bool(in.Unix), N(uint64(in.IdleMs)), Bool(in.Gate),
+	coqIn := App("C42.Build_input", Bool(in.Unix), N(uint64(in.IdleMs)), Bool(in.Gate), ListOf(in.Hook, Bool),
 		ListOf(in.Conns, func(cs []c02Call) string { return ListOf(cs, c02CallTerm) }), ListOf(in.Ops, c42OpTerm))
 	probes := ListOf(res.Probes, func(p c42Probe) string {
-		return App("C42.Build_probe", Bool(p.Ok), Bool(p.Ret), Opt(p.File >= 0, N(uint64(max(p.File, 0)))))
+		return App("C42.Build_probe", Bool(p.Ok), Bool(p.Refused), Bool(p.Ret), Opt(p.File >= 0, N(uint64(max(p.File, 0)))))
 	})
 	views := res.Views
 	if escaped { // an escaped panic can never equal a model view
@@ -554,8 +630,8 @@ type c42Gen struct {
 	idle int
 }
 
-func (g *c42Gen) short() int { return g.idle/4 + g.r.Intn(g.idle/12+1) }     // 0.25 .. 0.33 idle
-func (g *c42Gen) long() int  { return g.idle*8/5 + g.r.Intn(g.idle/3+1) }    // 1.6 .. 1.93 idle
+func (g *c42Gen) short() int { return g.idle/4 + g.r.Intn(g.idle/12+1) }  // 0.25 .. 0.33 idle
+func (g *c42Gen) long() int  { return g.idle*8/5 + g.r.Intn(g.idle/3+1) } // 1.6 .. 1.93 idle
 
 // calls builds the call list of one connection; x is made unique across the case (it is the script key).
 func c42Calls(r *rand.Rand, gate bool, conn, n int, classes []string) []c02Call {
@@ -582,10 +658,10 @@ func c42Calls(r *rand.Rand, gate bool, conn, n int, classes []string) []c02Call 
 	return out
 }
 
-func w(d int) c42Op        { return c42Op{K: "wait", D: d} }
-func opn(c int) c42Op      { return c42Op{K: "open", C: c} }
-func cls(c int) c42Op      { return c42Op{K: "close", C: c} }
-func tlk(cs ...int) c42Op  { return c42Op{K: "talk", Cs: cs} }
+func w(d int) c42Op       { return c42Op{K: "wait", D: d} }
+func opn(c int) c42Op     { return c42Op{K: "open", C: c} }
+func cls(c int) c42Op     { return c42Op{K: "close", C: c} }
+func tlk(cs ...int) c42Op { return c42Op{K: "talk", Cs: cs} }
 
 func c42Boundary(r *rand.Rand, idle int, unix bool, tier string) []c42In {
 	g := &c42Gen{r: r, idle: idle}
@@ -624,6 +700,20 @@ func c42Boundary(r *rand.Rand, idle int, unix bool, tier string) []c42In {
 	in := mk("idle-off", false, 2, []c42Op{opn(0), tlk(0), cls(0), w(400), opn(1), tlk(1), cls(1), w(300)})
 	in.IdleMs = 0
 	out = append(out, in)
+	// --- the serve-start hook refuses connections (a refused connection is counted, closed unserved and uncounted)
+	hk := func(in c42In, hook ...bool) c42In { in.Hook = hook; in.Class = "hook-" + in.Class; return in }
+	// refused first; then B is held, C comes and goes; one idle period later the listener must still accept (B is open)
+	out = append(out, hk(mk("refused-then-held", false, 5, []c42Op{opn(0), opn(1), tlk(1), opn(2), tlk(2), cls(2), w(g.long()), opn(3), tlk(3), cls(3),
+		w(g.long()), opn(4), cls(4), cls(1), w(g.short()), w(g.long()), opn(0)}, nil, []string{"ok-stream", "ok-unary"}), true))
+	// two refusals, separated by a wait, before the first served connection
+	out = append(out, hk(mk("refused-twice", true, 6, []c42Op{opn(0), w(g.short()), opn(1), opn(2), opn(3), tlk(3, 2), cls(3), w(g.long()), opn(4), w(g.long()),
+		cls(4), w(g.long()), opn(5), tlk(5), cls(5), cls(2), w(g.long())}), true, true))
+	// a refusal in the middle of the history: after a long quiet start, and with the hook succeeding in between refused ids
+	out = append(out, hk(mk("refused-after-wait", false, 5, []c42Op{w(g.long()), opn(0), w(g.short()), opn(1), opn(2), cls(2), w(g.long()), tlk(1), opn(3), cls(3), w(g.long()), opn(4), cls(4), cls(1), w(g.long())}), true))
+	// only refused connections ever: each one was open for an instant, so the idle timeout (not the 60 s grace) runs from the last one
+	out = append(out, hk(mk("refused-only", false, 3, []c42Op{opn(0), w(g.short()), opn(1), w(g.short()), w(g.short()), w(g.long()), opn(2)}), true, true, true))
+	// a script whose first verdict is success: never consulted again
+	out = append(out, hk(mk("accepts-first", false, 3, []c42Op{opn(0), opn(1), tlk(0, 1), cls(0), w(g.long()), cls(1), w(g.long()), opn(2)}), false, true, true))
 	if tier == "thorough" {
 		// the startup grace really ends after 60 s without any connection
 		out = append(out, mk("grace-expiry", false, 1, []c42Op{w(c42GraceMs * 7 / 10), w(c42GraceMs * 9 / 10), opn(0)}))
@@ -636,10 +726,17 @@ func c42Random(r *rand.Rand, idle int, unix bool, maxConns, maxOps int) c42In {
 	gate := r.Intn(4) == 0
 	nconn := 2 + r.Intn(maxConns-1)
 	in := c42In{Unix: unix, IdleMs: idle, Gate: gate, Class: "random"}
+	if r.Intn(3) == 0 { // the hook refuses the first one to three connections
+		nconn += 2
+		for k := 1 + r.Intn(3); k > 0; k-- {
+			in.Hook = append(in.Hook, true)
+		}
+		in.Class = "random-hook"
+	}
 	for c := 0; c < nconn; c++ {
 		in.Conns = append(in.Conns, c42Calls(r, gate, c, 1+r.Intn(4), nil))
 	}
-	mon := newC42Mon(idle)
+	mon := newC42MonH(idle, in.Hook)
 	talked := map[int]bool{}
 	next := 0
 	waits := 0
@@ -755,6 +852,6 @@ func c42GenInputs(r *rand.Rand, n int, tier string) []c42In {
 }
 
 func init() {
-	Register("C42", "per transport (Unix, TCP): boundary schedules (connection held open past the idle timeout, startup grace without any connection, dial inside the idle window, window restart at the second close, overlapping connections, three connections talking concurrently, idle timeout off; thorough: the 60 s startup grace expiring), then random schedules of open / concurrent talk / close / wait over 2-4 (thorough 2-6) connections with scripted C02 call histories of every in-scope class; waits never end near a timer expiry and a case whose real timing missed the schedule's precondition is re-run; non-trivial = at least two connections, at least one talked, and the listener was seen to stop; distinct = distinct input JSON",
+	Register("C42", "per transport (Unix, TCP): boundary schedules (serve-start hook refusing the first / first two / all connections - refused first then B held while C comes and goes and a probe dial one idle period later, refusals separated by waits, refused connections only, a script that accepts at once; connection held open past the idle timeout, startup grace without any connection, dial inside the idle window, window restart at the second close, overlapping connections, three connections talking concurrently, idle timeout off; thorough: the 60 s startup grace expiring), then random schedules of open / concurrent talk / close / wait over 2-4 (thorough 2-6) connections with scripted C02 call histories of every in-scope class; waits never end near a timer expiry and a case whose real timing missed the schedule's precondition is re-run; non-trivial = at least two connections, at least one talked, and the listener was seen to stop; distinct = distinct input JSON",
 		c42GenInputs, c42Run)
 }
